@@ -264,6 +264,7 @@ fn main() {
     if std::env::var("C30_DEBUG").is_err() { std::panic::set_hook(Box::new(|_| {})); }
     let reqs: Vec<String> = if cli.mode == "replay" { read_requests(cli.file.as_deref().unwrap()) } else {
         let mut r = Rng::new(cli.seed);
+        r = Rng(r.next()); // decorrelate: hcommon streams of consecutive seeds are one draw apart
         let mut v = Vec::new();
         let mut sid = cli.seed * 1_000_000;
         while (v.len() as u64) < cli.n { sid += 1; let len = r.range(5, 60); gen_history(&mut r, sid, len, &mut v); }
